@@ -1074,6 +1074,11 @@ class Engine:
             if a.items is not None and b.items is not None:
                 return self.new_list(ListModel(a.items + b.items))
             return self.list_concat(a, b)
+        if isinstance(l, VDict) and isinstance(op, ast.Sub) and isinstance(r, VList) and self.state.dicts[l.did].tag == "strset":
+            # a symbolic set of strings minus a concrete set: enumerate the members present on this path (forks per candidate)
+            items = self.iter_items(l, node)
+            if items is not None:
+                l = self.new_list(ListModel(list(items), tag="set"))
         if isinstance(l, VList) and isinstance(op, ast.Sub) and isinstance(r, VList):
             a, b = self.state.lists[l.lid], self.state.lists[r.lid]
             if a.items is not None and b.items is not None:
